@@ -1,7 +1,7 @@
 (* C17 - Run statistics describe exactly the run that just finished. *)
 From Coq Require Import String ZArith List Bool Permutation.
 From SK Require Import Model.Skel Model.SkelQ Model.Stats Spec.Stats
-     Proofs.Stats Gen.Exprs Gen.Skeleton.
+     Proofs.Stats Model.Task Proofs.Compose Gen.Exprs Gen.Skeleton.
 Import ListNotations.
 Open Scope Z_scope.
 
@@ -22,6 +22,26 @@ Theorem C17_stats_exact :
   Permutation tasks' (map (fun p => task_of (fst p) (snd p)) (combine fs bss)) ->
   run_stats prev (map f_regs fs) tasks' = spec_stats fs.
 Proof. exact @stats_exact. Qed.
+
+(* ... and this is what the task model of C01/C07 (Model/Task.v) does, for
+   every handler (simple and sequence searches), every definition set and
+   every line list: the task terminates, its result counter equals the size
+   of what it delivered to the collection, its line counter the number of
+   lines it was given *)
+Theorem C17_task_model_counts_its_collection :
+  forall (line D St R : Type) (key : D -> Z) (cons : D -> list Z)
+         (ocon : Z -> line -> outcome) (init : D -> St)
+         (step : D -> St -> Z -> line -> St * list R)
+         (post : list (D * St) -> Z -> list R) (MAX NBUF : Z),
+  1 <= MAX -> forall ds lines,
+  exists bs,
+    execute line D St R key cons ocon init step post MAX NBUF ds lines
+    = TaskOk bs /\
+    st_results (task_stats lines bs)
+    = Stats.lenZ (collected (execute line D St R key cons ocon init step post
+                                     MAX NBUF ds lines)) /\
+    st_lines (task_stats lines bs) = Stats.lenZ lines.
+Proof. exact task_counts_its_collection. Qed.
 
 Theorem C17_no_carry_over : forall (p1 p2 : stats) regs tasks,
   run_stats p1 regs tasks = run_stats p2 regs tasks.
@@ -84,5 +104,6 @@ Proof. vm_compute. reflexivity. Qed.
 
 Print Assumptions C17_results_counted_once.
 Print Assumptions C17_stats_exact.
+Print Assumptions C17_task_model_counts_its_collection.
 Print Assumptions C17_no_carry_over.
 Print Assumptions C17_merge_discipline.
